@@ -13,6 +13,31 @@ use std::sync::OnceLock;
 type EncFn = Box<dyn Fn(&Typed, usize) -> postcard::Result<Vec<u8>> + Sync + Send>;
 type DecFn = Box<dyn Fn(&Shape, &[u8]) -> Result<postcard::Result<(Value, usize, bool)>, String> + Sync + Send>;
 type FromFn = Box<dyn Fn(&Shape, &[u8]) -> Result<postcard::Result<Value>, String> + Sync + Send>;
+/// A storage flavor as a user would write it: a cursor over a slice that implements only what the trait requires
+/// (`size_hint` keeps its default).
+pub struct UserSource<'de> {
+    data: &'de [u8],
+    pos: usize,
+}
+impl<'de> postcard::de_flavors::Flavor<'de> for UserSource<'de> {
+    type Remainder = &'de [u8];
+    type Source = &'de [u8];
+    fn pop(&mut self) -> postcard::Result<u8> {
+        let b = *self.data.get(self.pos).ok_or(postcard::Error::DeserializeUnexpectedEnd)?;
+        self.pos += 1;
+        Ok(b)
+    }
+    fn try_take_n(&mut self, ct: usize) -> postcard::Result<&'de [u8]> {
+        let end = self.pos.checked_add(ct).ok_or(postcard::Error::DeserializeUnexpectedEnd)?;
+        let s = self.data.get(self.pos..end).ok_or(postcard::Error::DeserializeUnexpectedEnd)?;
+        self.pos = end;
+        Ok(s)
+    }
+    fn finalize(self) -> postcard::Result<&'de [u8]> {
+        Ok(&self.data[self.pos..])
+    }
+}
+
 type ReaderFn = Box<dyn Fn(&Shape, &[u8], usize) -> Result<postcard::Result<Value>, String> + Sync + Send>;
 
 pub struct CrcApi {
@@ -27,6 +52,8 @@ pub struct CrcApi {
     pub from: FromFn,
     /// CRC modifier over the std::io reader storage with a scratch buffer of the given size
     pub from_reader: ReaderFn,
+    /// CRC modifier over `UserSource`: (value, bytes left)
+    pub from_user: Box<dyn Fn(&Shape, &[u8]) -> Result<postcard::Result<(Value, usize)>, String> + Sync + Send>,
 }
 
 macro_rules! api {
@@ -60,6 +87,23 @@ macro_rules! api {
                         return Err("skip".into());
                     }
                     Ok(r.map(|d| d.0))
+                }),
+                from_user: Box::new(move |shape, input| {
+                    let (r, log) = with_shape(shape, || {
+                        no_panic(|| {
+                            use serde::Deserialize;
+                            let flav = postcard::de_flavors::crc::CrcModifier::new(UserSource { data: input, pos: 0 }, c.digest());
+                            let mut de = postcard::Deserializer::from_flavor(flav);
+                            let v = Dyn::deserialize(&mut de)?;
+                            let rest = de.finalize()?;
+                            Ok((v, rest.len()))
+                        })
+                    });
+                    let r: postcard::Result<(Dyn, usize)> = r?;
+                    if log.skipped_zero_width {
+                        return Err("skip".into());
+                    }
+                    Ok(r.map(|(d, n)| (d.0, n)))
                 }),
                 from_reader: Box::new(move |shape, input, scratch_len| {
                     let mut scratch = vec![0u8; scratch_len];
@@ -159,6 +203,13 @@ pub fn check_forward(ai: usize, shape: &Shape, value: &Value, tail: &[u8], l: &m
     match (api.from)(shape, &input) {
         Ok(Ok(v)) if v == *value => {}
         other => return Err(fail("crc-forward", format!("from_bytes_crc [{}]: {:?}", api.params.name, other), cjv())),
+    }
+    // the same modifier over a storage flavor written by a user (only the required trait methods)
+    l.eval();
+    match (api.from_user)(shape, &input) {
+        Err(s) if s == "skip" => {}
+        Ok(Ok((v, left))) if v == *value && left == tail.len() => {}
+        other => return Err(fail("crc-forward", format!("CrcModifier over a user-defined storage flavor [{}]: {:?}", api.params.name, other), cjv())),
     }
     // the same modifier over reader storage: a scratch buffer that holds what the message routes through it plus the
     // checksum suffices (and a roomy one does, too)
